@@ -37,6 +37,10 @@ type Data struct {
 	K        int     `json:"k"`        // layout deviation bound
 	Alphabet string  `json:"alphabet"` // comment/spacing alphabet: basic | extended
 	Canon    string  `json:"canon"`    // informational: canonical rendering
+	// Size (family F7): the tree is described by a size spec and rebuilt in the
+	// judge; it is rendered in the file-wide layout variants only (Tree, K and
+	// Alphabet are not used).
+	Size *SizeSpec `json:"size,omitempty"`
 }
 
 var counters, famCount engine.Counter
@@ -362,10 +366,12 @@ func repoFrames() string {
 }
 
 // checkRendering applies the oracle to one source text.
-func checkRendering(tree bt.Tree, dupWhere string, isDup bool, r bt.Rendering, local map[string]int64) (out *engine.Outcome) {
+// tag: a prefix of the failure class naming the construct under test, for the
+// families whose trees are not small enough to speak for themselves ("" else).
+func checkRendering(tree bt.Tree, tag string, dupWhere string, isDup bool, r bt.Rendering, local map[string]int64) (out *engine.Outcome) {
 	dc := r.Class()
 	fail := func(clause, format string, a ...any) *engine.Outcome {
-		o := engine.Fail("c02."+clause+"@"+dc, "%s\n  layout: %s\n  source: %q", fmt.Sprintf(format, a...), dc, r.Src)
+		o := engine.Fail("c02."+tag+clause+"@"+dc, "%s\n  layout: %s\n  source: %s", clip(fmt.Sprintf(format, a...), 1500), dc, clipQ(r.Src))
 		return &o
 	}
 	defer func() {
@@ -428,8 +434,63 @@ func checkRendering(tree bt.Tree, dupWhere string, isDup bool, r bt.Rendering, l
 	return nil
 }
 
+// clip shortens a long text (the sources of the size family reach megabytes).
+func clip(s string, n int) string {
+	if len(s) <= n {
+		return s
+	}
+	return fmt.Sprintf("%s ...[%d bytes omitted]... %s", s[:n/2], len(s)-n/2*2, s[len(s)-n/2:])
+}
+
+func clipQ(src string) string {
+	if len(src) <= 1200 {
+		return fmt.Sprintf("%q", src)
+	}
+	return fmt.Sprintf("%q ...[%d bytes omitted]... %q", src[:600], len(src)-1200, src[len(src)-600:])
+}
+
+// judgeSize: family F7. Same oracle, the file-wide layout variants only.
+func judgeSize(d Data) engine.Outcome {
+	tree, ok := buildSize(*d.Size)
+	if !ok {
+		return engine.Skip() // not a spec of the enumerated space (hand-edited replay)
+	}
+	if _, isDup := tree.DupWhere(); isDup {
+		return engine.Skip()
+	}
+	local := map[string]int64{}
+	var failed *engine.Outcome
+	n := int64(0)
+	bt.ForEachGlobal(tree, &bt.Basic, d.Size.Layouts == "full", func(r bt.Rendering) bool {
+		n++
+		local["size_renderings_bytes"] += int64(len(r.Src))
+		for _, kd := range r.Kinds() {
+			local["renderings_with:"+kd]++
+		}
+		if o := checkRendering(tree, d.Size.tag(), "", false, r, local); o != nil {
+			failed = o
+			return false
+		}
+		return true
+	})
+	local["renderings"] += n
+	local["size_renderings"] += n
+	local["size_items_judged"] += int64(bt.Size(tree.Items))
+	for k, v := range local {
+		counters.Add(k, v)
+	}
+	counters.Add("size_cases_"+d.Size.Kind, 1)
+	if failed != nil {
+		return *failed
+	}
+	return engine.Pass("size:" + d.Size.String())
+}
+
 func judge(c engine.Case) engine.Outcome {
 	d := c.Data.(Data)
+	if d.Size != nil {
+		return judgeSize(d)
+	}
 	if !d.Tree.Valid() {
 		return engine.Skip() // not a tree of the enumerated space (only reachable through a hand-edited replay)
 	}
@@ -446,7 +507,7 @@ func judge(c engine.Case) engine.Outcome {
 		for _, kd := range r.Kinds() {
 			local["renderings_with:"+kd]++
 		}
-		if o := checkRendering(d.Tree, where, isDup, r, local); o != nil {
+		if o := checkRendering(d.Tree, "", where, isDup, r, local); o != nil {
 			failed = o
 			return false
 		}
@@ -468,6 +529,9 @@ func judge(c engine.Case) engine.Outcome {
 // shrink: drop one item anywhere, drop one label, simplify one value.
 func shrink(c engine.Case) []engine.Case {
 	d := c.Data.(Data)
+	if d.Size != nil {
+		return sizeShrink(c, d)
+	}
 	var out []engine.Case
 	add := func(items []bt.Item) {
 		t := bt.Tree{Items: items}
@@ -546,6 +610,7 @@ func main() {
 			"F3 every sequence of <= 3 (top level) / <= 2 (inside a block) items (thorough 4/3) over 14 representative items (8 value kinds, 6 block shapes incl. same-type blocks and a block ending in a heredoc); " +
 			"F4 every tree shape with <= 5 items in total (thorough 6), <= 3 per body (4), nesting depth <= 2 (3); F5 small trees with an extended alphabet of 14 comment texts that look like other syntax plus extra spacing variants; " +
 			"F6 every such body with one attribute name defined twice (top level, nested one and two levels, next to a single definition in the parent). " +
+			"F7 size: N sibling items of one shape (20 shapes: an attribute of each of the 8 value kinds; a block in each of the 4 forms with 0, 1 or 2 labels) for N in {1..16} u {2^k-1, 2^k, 2^k+1 : k = 5..10} at top level (inside a block: k <= 8; thorough k <= 12 both), and the same N siblings followed by one more item of another shape (attribute, empty one-line block, one-line block with an argument, multi-line block; thorough also empty multi-line and two-label multi-line block, also inside a block) for k <= 8 (thorough 12); chains of D nested blocks, D in {1..16} u {31..33, 63..65, 127..129, 255..257} (thorough also 511..513, 1023..1025), innermost block in each of the 4 forms x 0/1/2 labels, enclosing bodies holding the nested block only or attribute + nested block + one-line block + attribute; F7 trees are rendered canonically and in the file-wide layouts only (CRLF, no final newline, tab-indented CRLF; thorough also CRLF without final newline, no indentation, tab indentation). " +
 			"Renderings of each tree: canonical + every single deviation (quick; thorough adds every pair for the quick space): indentation none/tab/space-tab/tab-space (each also with CRLF); blank line, tab-only line or own-line comment before every item, before every closing brace and at end of file; inline comment before the first token of a line; trailing comment or trailing blanks (space, tab; also with CRLF) after every item, after every opening and closing brace; the lines of every heredoc value, `<<X` and `<<-X`: blanks (none, space, tab, space-tab, tab-space, the indentation of the attribute, one level deeper) before the closing marker, blanks after it, the same before the body line of `<<-X`, each in LF, CRLF, tab-indented LF and tab-indented CRLF files; no space/tab/inline comment in every gap of a block header, around '=', and inside one-line blocks; comments inside multi-line values; CRLF everywhere; missing final newline (also combined with a comment on the last line); every line-comment/blank-line/multi-line-comment deviation also in a CRLF file; BOM (unspecified: accepted or rejected, but the same tree if accepted). " +
 			"Non-trivial = every rendering of the tree judged; distinct = distinct trees (canonical dump).",
 		Assumptions: []string{
